@@ -219,3 +219,30 @@ package snowflake_client
 //@   loop 1 invariant len(servers) == rangeindex#1 + 1 && rangeindex#1 + 1 <= len(addresses) && (forall i int :: 0 <= i && i < len(servers) ==> len(servers[i].URLs) == 1)
 //@   ensures {one-url-per-server} forall i int :: 0 <= i && i < len(r) ==> len(r[i].URLs) == 1
 //@   ensures len(r) == len(addresses)
+//
+// ---- the client's packet connection over the encapsulated stream (C09 call sites) ----
+// ReadFrom hands out the next data chunk of the stream (padding skipped by ReadData), cut to the caller's buffer as
+// net.PacketConn prescribes; WriteTo writes exactly the caller's packet as one data chunk and flushes it; a packet
+// too long for the format is an error, not a truncated chunk.
+//@ ghost var encLen int
+//@ ghost var encBase ref
+//@ func (c *encapsulationPacketConn) ReadFrom(p []byte) (n int, addr net.Addr, err error)
+//@   props C09
+//@   model bv
+//@   requires c != nil && c.ReadWriteCloser != nil
+//@   at call ReadData assert {reads-its-own-stream} arg0 == c.ReadWriteCloser
+//@   after call ReadData ghost encLen = len(ret0)
+//@   after call ReadData ghost encBase = base(ret0)
+//@   ensures {one-chunk-per-packet} calls(ReadData) == 1
+//@   ensures {cut-to-the-callers-buffer} err == nil ==> n == ite(len(p) < encLen, len(p), encLen)
+//@   ensures {errors-pass-through} err != nil ==> n == 0
+//@   ensures {source-is-the-peer} addr == c.remoteAddr
+//
+//@ func (c *encapsulationPacketConn) WriteTo(p []byte, addr net.Addr) (n int, err error)
+//@   props C09
+//@   model bv
+//@   requires c != nil && c.bw != nil
+//@   at call WriteData assert {one-data-chunk-with-exactly-the-packet} base(arg1) == base(p) && len(arg1) == len(p) && tagis(arg0, *bufio.Writer) && unbox(arg0, *bufio.Writer) == c.bw
+//@   ensures {all-or-nothing} (err == nil ==> n == len(p)) && (err != nil ==> n == 0)
+//@   ensures {too-long-is-an-error} len(p) >= 1<<20 ==> err != nil
+//@   ensures {flushed-on-success} err == nil ==> calls(Flush) == 1
